@@ -372,7 +372,8 @@ func replayFlush(args []string) int {
 				current = p
 				lrep.Cases++
 				res.pairs++
-				if feedback && leavesState(p.h.Ops) {
+				// (a suffix run as its own history repeats a history x suffix combination: not counted as distinct)
+				if feedback && leavesState(p.h.Ops) && len(p.h.Log) > 0 {
 					lrep.Nontrivial++
 				}
 				bad := ""
